@@ -643,3 +643,175 @@ def p5(prog, tier="quick"):
     for k in ("length", "?empty", "elem", "relem", "add", "?find", "?starts", "?ends", "cmp"):
         inst.append(("P5:" + k, {"strings": len(strs), "evaluations": n}))
     return inst, findings
+
+
+# ---------------------------------------------------------------------------
+# P6: sequence words against the list model (source evaluation)
+
+def p6(prog, tier="quick"):
+    """length, elem, relem, ?empty, ?find, ?starts, ?ends, add and value_seq::cmp interpreted from their source on every sequence over
+    three abstract element values (two types; two ranks of one type) up to a small length.  Elements are touched only through cmp,
+    get_type, clone and set_pos, so these three values exercise every distinction the words can make."""
+    import itertools
+    from cxxobj import CxxEvaluator, Obj, Vec, OutOfBounds
+    from absint import Thrown
+    inst, findings = [], []
+
+    def one(q):
+        fs = [f for f in prog.funcs.values() if f["q"] == q and f.get("body") is not None]
+        if len(fs) != 1:
+            raise Broken("anchor %s vanished" % q)
+        return fs[0]
+    cmp_enum = None
+    for e in prog.enums.values():
+        if e["q"] == "cmp_result":
+            cmp_enum = {c["n"]: ("enum", c["n"], c["v"]) for c in e["consts"]}
+    if cmp_enum is None:
+        raise Broken("enum cmp_result vanished")
+
+    class El:
+        def __init__(self, t, r, pos=0):
+            self.t, self.r, self.pos = t, r, pos
+
+        @property
+        def addr(self):
+            return id(self)
+
+        def copy_value(self):
+            return El(self.t, self.r, self.pos)
+
+        def key(self):
+            return (self.t, self.r)
+
+        def __repr__(self):
+            return "%s%d" % ("ab"[self.t - 1], self.r)
+
+    class Ty:
+        def __init__(self, c):
+            self.m_code = c
+
+        def copy_value(self):
+            return Ty(self.m_code)
+
+    def el_cmp(ev, o, a):
+        if o.t != a[0].t:
+            return cmp_enum["fail"]
+        return cmp_enum["less"] if o.r < a[0].r else (cmp_enum["greater"] if o.r > a[0].r else cmp_enum["equal"])
+    f_cmp = one("value_seq::cmp")
+    hooks = {
+        "ctor:pred_result": lambda ev, o, a: a[0],
+        "zw_value::as<value_seq>": lambda ev, o, a: a[0] if isinstance(a[0], Obj) and a[0]._cls == "value_seq" else None,
+        "zw_value::cmp": lambda ev, o, a: el_cmp(ev, o, a) if isinstance(o, El) else ev.call(f_cmp, o, a),
+        "zw_value::clone": lambda ev, o, a: o.copy_value(),
+        "zw_value::set_pos": lambda ev, o, a: setattr(o, "pos", a[0]),
+        "zw_value::get_type": lambda ev, o, a: Ty(o.t),
+        "value_type::operator<": lambda ev, o, a: o.m_code < a[0].m_code,
+        "value_type::operator==": lambda ev, o, a: o.m_code == a[0].m_code,
+        "value_type::operator!=": lambda ev, o, a: o.m_code != a[0].m_code,
+    }
+    ev = CxxEvaluator(hooks, {"dec_constant_dom": "dec"}, prog=prog)
+    els = [(1, 0), (1, 1), (2, 0)]
+    maxlen = 3 if tier == "thorough" else 2
+    seqs = [()]
+    for n in range(1, maxlen + 1):
+        seqs += list(itertools.product(els, repeat=n))
+
+    def vq(items):
+        v = Obj("value_seq")
+        v.m_seq, v.m_pos = Vec([El(t, r, i) for i, (t, r) in enumerate(items)], "seq_t"), 0
+        return v
+
+    def pr(r):
+        if isinstance(r, bool):
+            return "yes" if r else "no"
+        return r[1] if isinstance(r, tuple) else r
+
+    def show(items):
+        return "[" + ", ".join("%s%d" % ("ab"[t - 1], r) for t, r in items) + "]"
+    seen = set()
+
+    def report(key, f, msg):
+        if key not in seen:
+            seen.add(key)
+            findings.append({"key": key, "where": "libzwerg/" + f["l"], "msg": msg, "detail": None})
+
+    def run(key, f, this, args, what):
+        try:
+            return True, ev.call(f, this, args)
+        except OutOfBounds as x:
+            report(key, f, "%s: %s (memory error)" % (what, x))
+        except Thrown as x:
+            report(key, f, "%s throws (%s)" % (what, x))
+        return False, None
+
+    def cval(v):
+        c = getattr(v, "m_cst", None)
+        val = getattr(c, "m_value", None)
+        return getattr(val, "m_u", val)
+
+    def contains(h, nd):
+        return any(h[i:i + len(nd)] == nd for i in range(len(h) - len(nd) + 1))
+
+    def model_cmp(a, b):
+        if len(a) != len(b):
+            return "less" if len(a) < len(b) else "greater"
+        for x, y in zip(a, b):
+            if x[0] != y[0]:
+                return "less" if x[0] < y[0] else "greater"
+        for x, y in zip(a, b):
+            if x[1] != y[1]:
+                return "less" if x[1] < y[1] else "greater"
+        return "equal"
+    f_len, f_add = one("op_length_seq::operate"), one("op_add_seq::operate")
+    f_elem, f_relem = one("op_elem_seq::operate"), one("op_relem_seq::operate")
+    n_elem, n_relem = one("(anonymous namespace)::seq_elem_producer::next"), one("(anonymous namespace)::seq_relem_producer::next")
+    f_empty, f_find = one("pred_empty_seq::result"), one("pred_find_seq::result")
+    f_starts, f_ends = one("pred_starts_seq::result"), one("pred_ends_seq::result")
+    n = 0
+    for a in seqs:
+        sa = show(a)
+        ok, r = run("P6:length", f_len, Obj("op"), [vq(a)], "`length` of %s" % sa)
+        n += 1
+        if ok and (cval(r) != len(a) or getattr(r, "m_pos", None) != 0):
+            report("P6:length", f_len, "`length` of %s yields %s" % (sa, cval(r)))
+        ok, r = run("P6:?empty", f_empty, Obj("op"), [vq(a)], "`?empty` on %s" % sa)
+        if ok and pr(r) != ("yes" if not a else "no"):
+            report("P6:?empty", f_empty, "`?empty` on %s answers %s" % (sa, pr(r)))
+        for f_e, nx, nm, want in ((f_elem, n_elem, "elem", list(a)), (f_relem, n_relem, "relem", list(a)[::-1])):
+            src = vq(a)
+            ok, p = run("P6:" + nm, f_e, Obj("op"), [src], "`%s` on %s" % (nm, sa))
+            if not ok:
+                continue
+            outs = []
+            for _ in range(len(a) + 2):
+                ok, v = run("P6:" + nm, nx, p, [], "`%s` on %s" % (nm, sa))
+                n += 1
+                if not ok or v is None:
+                    break
+                outs.append(v)
+            if not ok:
+                continue
+            got = [v.key() if isinstance(v, El) else None for v in outs]
+            if got != want or [getattr(v, "pos", None) for v in outs] != list(range(len(outs))):
+                report("P6:" + nm, nx, "`%s` on %s yields %s numbered %s; expected %s numbered from 0" % (nm, sa, got, [getattr(v, "pos", None) for v in outs], want))
+            elif any(any(v is x for x in src.m_seq.items) for v in outs):
+                report("P6:" + nm, nx, "`%s` hands out the stored element itself instead of a copy" % nm)
+    for a in seqs:
+        for b in seqs:
+            sa, sb = show(a), show(b)
+            n += 1
+            ok, r = run("P6:add", f_add, Obj("op"), [vq(a), vq(b)], "`add` of %s and %s" % (sa, sb))
+            if ok:
+                got = [x.key() for x in getattr(r, "m_seq", Vec()).items] if hasattr(r, "m_seq") else None
+                if got != list(a + b) or getattr(r, "m_pos", None) != 0:
+                    report("P6:add", f_add, "`add` of %s and %s yields %s" % (sa, sb, got))
+            for key, f, model in (("P6:?find", f_find, contains(a, b)), ("P6:?starts", f_starts, a[:len(b)] == b), ("P6:?ends", f_ends, len(b) <= len(a) and a[len(a) - len(b):] == b)):
+                ok, r = run(key, f, Obj("op"), [vq(a), vq(b)], "`%s` on %s and %s" % (key[3:], sa, sb))
+                if ok and pr(r) != ("yes" if model else "no"):
+                    report(key, f, "`%s` with haystack %s and needle %s answers %s" % (key[3:], sa, sb, pr(r)))
+            ok, r = run("P6:cmp", f_cmp, vq(a), [vq(b)], "comparison of %s and %s" % (sa, sb))
+            if ok and pr(r) != model_cmp(a, b):
+                report("P6:cmp", f_cmp, "value_seq::cmp answers `%s` for %s and %s (expected `%s`: by length, then element-wise)" % (pr(r), sa, sb, model_cmp(a, b)))
+    for k in ("length", "?empty", "elem", "relem", "add", "?find", "?starts", "?ends", "cmp"):
+        inst.append(("P6:" + k, {"sequences": len(seqs), "evaluations": n}))
+    return inst, findings
